@@ -134,7 +134,11 @@ struct Event { unsigned char b[40]; };
 #endif
 
 namespace cfg {
+#ifdef FFSM2_ENABLE_PLANS
+using C0 = ffsm2::Config::SubstitutionLimitN<LIMIT>::TaskCapacityN<2>;
+#else
 using C0 = ffsm2::Config::SubstitutionLimitN<LIMIT>;
+#endif
 #if CONTEXT == 1
 using C1 = C0::ContextT<Ctx>;
 #elif CONTEXT == 2
@@ -261,6 +265,9 @@ static void act(TControl& c, int I) {
   else if ((k & 3) == 2) { int d = nondet_below(NSTATES); Pay p = anypay(); c.changeWith(d, p); note_request(I < 0 ? INV : I, d); led_haspay = true; led_pay = p;
     VA(c.request().destination == d && c.request().origin == (I < 0 ? INV : I), 607);
     VA(c.request().payload() && payeq(*c.request().payload(), p), 706); }
+#endif
+#ifdef FFSM2_ENABLE_PLANS
+  else if ((k & 3) == 3) { int id = nondet_below(NSTATES); if (k & 4) c.succeed(id); else c.fail(id); }   // reporting task results
 #endif
   VA(g_active() == before, 201);     // a request never changes the active state when made
 }
@@ -493,6 +500,11 @@ static void end_process() {
   }
   // a destination none of whose rounds survived is not entered on account of those requests
   if (now != call_before && now < NSTATES) VA((surv_mask >> now) & 1u, 333);
+  // C04: however the rounds went (limit reached or not) the call ends with exactly one active state, chosen among the
+  // requests that passed their guards (or the previous state)
+  VA(now < NSTATES && now == mon_active, 404);
+  if (now != call_before && now < NSTATES) VA((surv_mask >> now) & 1u, 405);
+  VA(now == (acc_valid ? acc_dest : call_before), 406);
   // a request still unconsumed when processing ends
   if (led_valid) {
     if (led_round >= 1) {            // made inside a guard of this call
@@ -530,6 +542,7 @@ static void end_activate() {
   VA(mon_active == e, 226); VA(mon_active == e, 334);
   VA(n_enter == 1 && n_exit == 0 && n_reenter == 0, 227);
   VA(rounds <= 1 + LIMIT, 403);
+  VA(mon_active == e && g->activeStateId() == e, 407);
   if (led_valid) {
     bool same = acc_valid && led_dest == acc_dest; bool limit = rounds == 1 + LIMIT;
     VA(led_round >= 1, 243); VA(same || limit, 241);
@@ -644,10 +657,10 @@ extern "C" int harness(void) {
     if (op == 0 && (OPS & OP_UPDATE)) { begin_call(CALL_PROCESS); ph_kind = 1; m->update(); VA(ph == 6, 504); end_process(); }
     else if (op == 1 && (OPS & OP_REACT)) { Event ev; nondet_fill(&ev, sizeof ev); ev_ptr = &ev; begin_call(CALL_PROCESS); ph_kind = 2; m->react(ev); VA(ph == 6, 504); end_process(); ev_ptr = 0; }
     else if (op == 2 && (OPS & OP_QUERY)) { Event ev; nondet_fill(&ev, sizeof ev); ev_ptr = &ev;
-      unsigned char before[sizeof(Inst)]; for (unsigned i = 0; i < sizeof(Inst); ++i) before[i] = buf[i];
+      unsigned char before[sizeof(Inst)]; vmem_copy(before, buf, sizeof(Inst));
       begin_call(CALL_QUERY); ph_kind = 3; const Inst* cm = m; cm->query(ev);
       VA(ph == 2, 513);
-      bool same = true; for (unsigned i = 0; i < sizeof(Inst); ++i) same = same && (before[i] == buf[i]);
+      bool same = vmem_equal(before, buf, sizeof(Inst)) != 0;
       VA(same, 514);                                        // query leaves the machine unchanged
       VA(rounds == 0 && n_enter + n_exit + n_reenter == 0, 515);
       check_quiescent(); call_kind = CALL_NONE; ev_ptr = 0; }
@@ -666,11 +679,11 @@ extern "C" int harness(void) {
 #if HISTORY
     else if (op == 5 && (OPS & OP_REPLAY)) { unsigned char d = nondet_u8(); vassume(d < NSTATES || d == 255);
       if (d == 255) {
-        unsigned char before[sizeof(Inst)]; for (unsigned i = 0; i < sizeof(Inst); ++i) before[i] = buf[i];
+        unsigned char before[sizeof(Inst)]; vmem_copy(before, buf, sizeof(Inst));
         begin_call(CALL_NOGUARD); guards_allowed = false; bool ok = m->replayTransition(d); guards_allowed = true;
         VA(!ok, 1113); VA(rounds == 0 && n_enter + n_exit + n_reenter == 0, 1114); check_quiescent(); call_kind = CALL_NONE;
         m->_core.previousTransition = reinterpret_cast<Inst*>(before)->_core.previousTransition;   // the documented clearing of previousTransition aside ...
-        bool same = true; for (unsigned i = 0; i < sizeof(Inst); ++i) same = same && (before[i] == buf[i]);
+        bool same = vmem_equal(before, buf, sizeof(Inst)) != 0;
         VA(same, 1115);                                     // ... nothing changed
         m->_core.previousTransition.clear();
       } else {
@@ -681,9 +694,9 @@ extern "C" int harness(void) {
 #endif
 #if SERIAL
     else if (op == 6 && (OPS & OP_SAVELOAD)) {
-      unsigned char before[sizeof(Inst)]; for (unsigned i = 0; i < sizeof(Inst); ++i) before[i] = buf[i];
+      unsigned char before[sizeof(Inst)]; vmem_copy(before, buf, sizeof(Inst));
       m->save(saved); have_saved = true; saved_active = mon_active;
-      bool same = true; for (unsigned i = 0; i < sizeof(Inst); ++i) same = same && (before[i] == buf[i]);
+      bool same = vmem_equal(before, buf, sizeof(Inst)) != 0;
       VA(same, 1201); check_quiescent(); }
     else if (op == 7 && (OPS & OP_SAVELOAD) && have_saved) {
       begin_call(CALL_NOGUARD); guards_allowed = false; m->load(saved); guards_allowed = true;
